@@ -263,10 +263,16 @@ def main():
     limit = float(os.environ.get('VERIF_CASE_TIMEOUT', '30'))
     signal.signal(signal.SIGALRM, _alarm)
     timeouts = 0
+    import time as _time
+    t_start = _time.time()
+    budget = float(os.environ.get('VERIF_BATCH_BUDGET', '1500'))
     for line in sys.stdin:
         line = line.strip()
         if not line:
             print('{}')
+            continue
+        if _time.time() - t_start > budget:
+            print(json.dumps({'error': 'timeout: skipped, this batch used up its time budget of %.0f s' % budget}))
             continue
         if timeouts >= 3:
             print(json.dumps({'error': 'timeout: skipped after %d histories of this batch ran into the per-case limit' % timeouts}))
